@@ -687,6 +687,9 @@ func ArrayOfFunction(env *Zlisp, name string,
 		if !isInt {
 			return SexpNull, fmt.Errorf("size must be an int (not %T) in array constructor; e.g. ([size ...] regtype)", ar.Val[0])
 		}
+		if err := checkMakeSize("array constructor", asInt.Val); err != nil {
+			return SexpNull, err
+		}
 		sz = int(asInt.Val)
 		// TODO: implement multiple dimensional arrays (matrixes etc).
 	default:
